@@ -6,6 +6,8 @@
   existence, and once liquidity exists both reserves stay strictly positive.
 
   Model: Core/Pair.lean (`bal1/bal2` = real balances, `lpCirc` = minted − burned LP).
+  The operations quantified over include the output-locking setters, the epoch clock and swaps
+  whose output is locked through simple-lock (`Op.lock`, `Op.epoch`, `Out.locked`).
   Only property theorems live in this file; helper lemmas are in Lemmas/Pair*.lean.
 -/
 import MxModel.Lemmas.PairInv
@@ -53,14 +55,16 @@ theorem positive_forever (total special : Nat) (adder : Option Nat) (cap : Nat)
 theorem failed_tx_no_effect (s : St) (op : Op) (h : step s op = none) : run s [op] = s := by
   simp [run, h]
 
-/-- non-vacuity: a concrete history reaches a state with liquidity, a routed fee and a
-    collector cut, on which the invariant's premises are all live -/
+/-- non-vacuity: a concrete history reaches a state with liquidity, a routed fee, a
+    collector cut and swap outputs locked through simple-lock, on which the invariant's
+    premises are all live -/
 example :
     let s := run (init 300 50 none 8)
       [.cfg (.setState .active), .addLiq 1000000 2000000 1 1, .cfg (.addDest .first),
        .cfg (.addDest .second), .cfg (.setCollector 50000), .advance 3,
-       .swapIn .ab 100000 1, .swapOut .ba 500000 1000, .removeLiq 5000 1 1]
-    0 < s.S ∧ s.r1 < s.bal1 ∧ 0 < s.coll1 ∧ 0 < s.burn1 ∧ 0 < s.burn2 := by
+       .lock true (.setSc .simpleLock), .lock true (.setDeadline 2), .lock true (.setUnlock 7),
+       .swapIn .ab 100000 1, .epoch 2, .swapOut .ba 500000 1000, .removeLiq 5000 1 1]
+    0 < s.S ∧ s.r1 < s.bal1 ∧ 0 < s.coll1 ∧ 0 < s.burn1 ∧ 0 < s.burn2 ∧ 0 < s.slk2 ∧ s.slk1 = 0 := by
   decide
 
 end Mx.C01
